@@ -1,6 +1,7 @@
 package main
 
 import (
+	"bytes"
 	"fmt"
 	"runtime/debug"
 
@@ -111,4 +112,85 @@ func monAfterRestart(f MonFlags, m *Mon, post *View) *Mon {
 		}
 	}
 	return n
+}
+
+// restartPreserves: what a zero-height export and the import that follows may change is listed in C19 (every context
+// paused, no batch in flight, escrow returned). Everything else the genesis carries must come back as it was; a
+// difference is reported under the property that speaks about the thing that changed.
+func restartPreserves(prop string, x *OCtx, t *Trans) []Violation {
+	var out []Violation
+	add := func(clause, disc, detail string) { out = append(out, viol(prop, clause, "restart", disc, detail)) }
+	pre, post := t.Pre, t.Post
+	switch prop {
+	case "C09", "C10", "C06", "C12":
+		for _, id := range pre.CtxIDs {
+			pc, qc := pre.Ctxs[id], post.Ctxs[id]
+			name := x.Sc.ctxName(id)
+			if qc == nil {
+				if prop == "C09" {
+					add("context-survives-a-restart", name, "context "+name+" is missing after the restart")
+				}
+				continue
+			}
+			switch prop {
+			case "C09":
+				if pc.ServiceName != qc.ServiceName || !bytes.Equal(pc.Consumer, qc.Consumer) || pc.Input != qc.Input || pc.SuperMode != qc.SuperMode ||
+					pc.Repeated != qc.Repeated || pc.ModuleName != qc.ModuleName {
+					add("identity-fields-never-change", name, fmt.Sprintf("context %s came back from the restart with other identity fields: %s -> %s", name, pc.String(), qc.String()))
+				}
+				if pc.BatchCounter != qc.BatchCounter {
+					add("batch-counter-only-increases-by-batches", name, fmt.Sprintf("context %s: batch counter %d before the restart, %d after it", name, pc.BatchCounter, qc.BatchCounter))
+				}
+				x.Wit("C09:context-carried-over-a-restart")
+			case "C10":
+				if pc.BatchCounter != qc.BatchCounter || pc.RepeatedTotal != qc.RepeatedTotal || pc.RepeatedFrequency != qc.RepeatedFrequency || pc.Repeated != qc.Repeated {
+					add("batches-counted-across-a-restart", name, fmt.Sprintf("context %s: counter/total/frequency/repeated %d/%d/%d/%v before the restart, %d/%d/%d/%v after it",
+						name, pc.BatchCounter, pc.RepeatedTotal, pc.RepeatedFrequency, pc.Repeated, qc.BatchCounter, qc.RepeatedTotal, qc.RepeatedFrequency, qc.Repeated))
+				}
+			case "C06":
+				same := len(pc.Providers) == len(qc.Providers) && pc.ServiceFeeCap.IsEqual(qc.ServiceFeeCap) && pc.Timeout == qc.Timeout
+				for i := 0; same && i < len(pc.Providers); i++ {
+					same = bytes.Equal(pc.Providers[i], qc.Providers[i])
+				}
+				if !same {
+					add("context-terms-change-only-by-update", name, fmt.Sprintf("providers / fee cap / timeout of context %s changed across the restart", name))
+				}
+			case "C12":
+				if pc.ResponseThreshold != qc.ResponseThreshold || pc.ModuleName != qc.ModuleName {
+					add("threshold-and-owner-carried-over-a-restart", name, fmt.Sprintf("context %s: threshold/module %d/%q before the restart, %d/%q after it", name, pc.ResponseThreshold, pc.ModuleName, qc.ResponseThreshold, qc.ModuleName))
+				}
+			}
+		}
+	case "C15":
+		for n, raw := range pre.DefRaw {
+			if !bytes.Equal(raw, post.DefRaw[n]) {
+				add("definition-never-changes", n, "definition "+n+" differs after the restart")
+			}
+		}
+		if len(pre.DefRaw) != len(post.DefRaw) {
+			add("definition-never-changes", "count", fmt.Sprintf("%d definitions before the restart, %d after it", len(pre.DefRaw), len(post.DefRaw)))
+		}
+		for _, br := range pre.Bindings {
+			qb := post.Binding(br.B.ServiceName, br.B.Provider)
+			if qb == nil || qb.String() != br.B.String() {
+				add("binding-carried-over-a-restart", nameOf(br.B.Provider), fmt.Sprintf("binding (%s,%s) differs after the restart", br.B.ServiceName, nameOf(br.B.Provider)))
+			}
+		}
+		if len(pre.Bindings) != len(post.Bindings) {
+			add("binding-carried-over-a-restart", "count", fmt.Sprintf("%d bindings before the restart, %d after it", len(pre.Bindings), len(post.Bindings)))
+		}
+	case "C13":
+		if d := rawSetDiff(pre.Withdraw, post.Withdraw); d != "" {
+			add("withdrawal-address-changes-only-by-its-owner's-message", "restart", "withdrawal addresses differ after the restart: "+d)
+		}
+	case "C03", "C14":
+		for _, br := range pre.Bindings {
+			qb := post.Binding(br.B.ServiceName, br.B.Provider)
+			if qb != nil && (!qb.Deposit.IsEqual(br.B.Deposit) || qb.Available != br.B.Available || !qb.DisabledTime.Equal(br.B.DisabledTime)) {
+				add("deposit-and-availability-carried-over-a-restart", nameOf(br.B.Provider), fmt.Sprintf("binding (%s,%s): deposit %s available %v before the restart, %s %v after it",
+					br.B.ServiceName, nameOf(br.B.Provider), br.B.Deposit, br.B.Available, qb.Deposit, qb.Available))
+			}
+		}
+	}
+	return out
 }
